@@ -184,6 +184,9 @@ type Res struct {
 	bound   atomic.Int32
 	BoundTo int // mem id
 	BoundAt int
+	// stale: the allocation this resource was bound to has been relocated by defragmentation; the
+	// application must recreate the resource, and the vacated range may be handed out again
+	stale atomic.Int32
 }
 
 func (r *Res) Alive() bool { return r.alive.Load() != 0 }
@@ -730,6 +733,13 @@ func (d *Device) DestroyResource(id int, image bool) {
 
 // ForgetBinding marks a resource's binding as dangling (the harness freed the memory range it was bound
 // to without destroying the resource first, which is the caller's business, not the allocator's).
+// MarkStale records that the memory range a resource is bound to no longer belongs to it (see Res.stale).
+func (d *Device) MarkStale(id int) {
+	if r := d.ResByID(id); r != nil {
+		r.stale.Store(1)
+	}
+}
+
 func (d *Device) ForgetBinding(id int) {
 	if r := d.ResByID(id); r != nil {
 		r.bound.Store(0)
@@ -800,7 +810,7 @@ func (d *Device) Bind(resID, memID, offset int, image bool) int {
 	// bufferImageGranularity: linear and non-linear resources must not share a page
 	if g := d.Cfg.Granularity; g > 1 && offset >= 0 {
 		for _, o := range d.LiveRes() {
-			if o.ID == resID || !o.Bound() || o.BoundTo != memID || o.Kind.Linear() == r.Kind.Linear() || o.Req.IgnoreGranularity || r.Req.IgnoreGranularity {
+			if o.ID == resID || !o.Bound() || o.stale.Load() != 0 || o.BoundTo != memID || o.Kind.Linear() == r.Kind.Linear() || o.Req.IgnoreGranularity || r.Req.IgnoreGranularity {
 				continue
 			}
 			if pagesOverlap(offset, r.Req.Size, o.BoundAt, o.Req.Size, g) {
